@@ -13,6 +13,11 @@ func tbl(dir, name string) gtItem { return gtItem{dir: dir, key: "var:" + name} 
 // cst: a constant of a const block, emitted with its value.
 func cst(dir, name string) gtItem { return gtItem{dir: dir, key: "const:" + name} }
 
+// lits: the constant strings a generator function writes through s.js / s.jsln, in source order
+func lits(dir, key string) gtItem {
+	return gtItem{dir: dir, key: key, cfg: &gtCfg{litsOf: []string{"js", "jsln"}, suffix: "lits"}}
+}
+
 func init() {
 	gtFamily("70-gotrans-lexer-preds", []gtItem{
 		it("parse", "isSpace"),
@@ -101,6 +106,17 @@ func init() {
 		it("soyjs", "scope.pushForRange"),
 		it("soyjs", "scope.pushForEach"),
 		it("soyjs", "scope.loop"),
+		// the fixed text the generator writes (Model/JsGen.v's t_ constants), function by function
+		lits("soyjs", "state.visitIf"),
+		lits("soyjs", "state.visitForRange"),
+		lits("soyjs", "state.visitForeach"),
+		lits("soyjs", "state.visitLoop"),
+		lits("soyjs", "state.visitNamespace"),
+		lits("soyjs", "state.visitTemplate"),
+		lits("soyjs", "state.visitPrint"),
+		lits("soyjs", "state.visitCall"),
+		lits("soyjs", "state.visitSwitch"),
+		lits("soyjs", "state.visitDataRef"),
 	})
 	// soymsg/id.go hash32 with its block loop (fuel: one iteration per 12 bytes of limit-start, stated generously);
 	// the hidden loop names of soyhtml (exec.go, funcs.go)
